@@ -17,7 +17,7 @@ RULE = ("Histories over the state-changing API: force_constants= (full|compact, 
         "nac_params= (None|wang|gonze), masses=, dataset= / forces=, copy(); interleaved with queries (q-points with all "
         "outputs, mesh + thermal properties, random displacements) that populate caches; three small crystals; constructor "
         "variants (group_velocity_delta_q, is_symmetry). 'enum': ALL sequences of length <= 2 (quick) / <= 3 (thorough) over a "
-        "canonical 13-letter alphabet, for the three dynamical-matrix classes. Non-trivial: >= 2 state changes of different "
+        "canonical 15-letter alphabet, for the three dynamical-matrix classes. Non-trivial: >= 2 state changes of different "
         "kinds before the last query. Distinct by hash of the history.")
 ASSUMPTIONS = [
     "force_constants handed in as an OWNED float64 C-contiguous array is documented to be shared and modified in place by the "
@@ -50,6 +50,11 @@ class Hist:
         self.cellname, self.ctor = cellname, dict(ctor)
         self.ph, self.cell = make(cellname, ctor)
         self.guards = []  # (description, live array, snapshot)
+        # model of what the caller has set (never read back from the object under test)
+        self.model_masses = None  # None: the masses of the input cell
+        self.model_nac = None
+        # the cell object handed to the constructor belongs to the caller
+        self.cell_snapshot = {a: np.array(getattr(self.cell, a), copy=True) for a in ("cell", "scaled_positions", "masses")}
         self.kinds = []
         self.n_changes_before_query = 0
         self.log = []
@@ -68,9 +73,10 @@ class Hist:
 
     def fresh(self):
         p, _ = make(self.cellname, self.ctor)
-        p.masses = np.array(self.ph.masses, copy=True)
-        if self.ph.nac_params is not None:
-            p.nac_params = copy.deepcopy(self.ph.nac_params)
+        if self.model_masses is not None:
+            p.masses = np.array(self.model_masses, copy=True)
+        if self.model_nac is not None:
+            p.nac_params = copy.deepcopy(self.model_nac)
         p.force_constants = np.array(self.ph.force_constants, copy=True, order="C")
         return p
 
@@ -139,24 +145,39 @@ class Hist:
             m = step["method"]
             if m == "none":
                 ph.nac_params = None
+                self.model_nac = None
             else:
                 Z, eps = sym_nac(ph.primitive, rng)
                 params = {"born": Z, "dielectric": eps, "factor": 14.4, "method": m}
                 ph.nac_params = params
+                self.model_nac = copy.deepcopy(params)
                 self._guard("Born charges handed in through nac_params=", Z)
                 self._guard("dielectric tensor handed in through nac_params=", eps)
         elif op == "masses":
-            m = rng.uniform(5, 50, size=len(ph.primitive))
+            cur = np.array(self.model_masses if self.model_masses is not None else self._prim_masses0(), dtype=float)
+            how = step.get("how", "random")
+            if how == "tiny":  # a change far below any 'close enough' tolerance is still a change
+                m = cur * (1 + 5e-7 * (1 + np.arange(len(cur))))
+            elif how == "one":
+                m = cur.copy()
+                m[-1] *= 1.0 + 1e-3
+            else:
+                m = rng.uniform(5, 50, size=len(ph.primitive))
             ph.masses = m
+            self.model_masses = np.array(m, copy=True)
             self._guard("masses handed to the masses setter", m)
         elif op == "copy":
             before = self.probe(ph)
+            cells_before = [np.array(c.masses, copy=True) for c in (ph.unitcell, ph.supercell, ph.primitive)]
             other = ph.copy()
             other.force_constants = np.array(ph.force_constants, copy=True) * 1.7
             other.masses = np.array(ph.masses) * 2.0
             after = self.probe(ph)
             if max(np.abs(a - b).max() for a, b in zip(before, after)) > 0:
                 raise AssertionError("operating on copy() changed the original object")
+            for name, c, m0 in zip(("unitcell", "supercell", "primitive"), (ph.unitcell, ph.supercell, ph.primitive), cells_before):
+                if not np.array_equal(c.masses, m0):
+                    raise AssertionError("setting masses on a copy() changed the masses of the original object's %s" % name)
             self.ph = ph.copy()
             self.ph.force_constants = np.array(ph.force_constants, copy=True)
             if ph.nac_params is not None:
@@ -185,7 +206,20 @@ class Hist:
         self.kinds.append(op)
         return "change"
 
+    def _prim_masses0(self):
+        """masses of the primitive atoms as given by the caller's input cell (model side)"""
+        ph = self.ph
+        s2u = np.array(ph.supercell.s2u_map)
+        u2u = {int(k): i for i, k in enumerate(ph.supercell.u2s_map)}
+        return np.array([self.cell_snapshot["masses"][u2u[int(s2u[i])]] for i in ph.primitive.p2s_map], dtype=float)
+
     def check(self):
+        want_m = self.model_masses if self.model_masses is not None else self._prim_masses0()
+        if not np.array_equal(np.asarray(self.ph.masses, dtype=float), np.asarray(want_m, dtype=float)):
+            return "masses reported by the object %s are not the masses last set %s" % (np.asarray(self.ph.masses).tolist(), np.asarray(want_m).tolist())
+        for a_, snap in self.cell_snapshot.items():
+            if not np.array_equal(np.asarray(getattr(self.cell, a_)), snap):
+                return "the unit cell object handed to the constructor was modified (%s)" % a_
         a = self.probe(self.ph)
         b = self.probe(self.fresh())
         sc = max(np.abs(b[0]).max(), 1e-300)
@@ -231,6 +265,7 @@ ALPHABET = [
     {"op": "set_fc", "key": 5, "layout": "full", "how": "view"}, {"op": "produce", "key": 6, "full": True}, {"op": "produce", "key": 7, "full": False},
     {"op": "sym", "level": 1}, {"op": "sym_sg"}, {"op": "cutoff", "r": 3.4}, {"op": "nac", "method": "gonze", "key": 8},
     {"op": "nac", "method": "wang", "key": 9}, {"op": "nac", "method": "none"}, {"op": "masses", "key": 10}, {"op": "query_mesh", "ev": True, "gv": True},
+    {"op": "masses", "key": 11, "how": "tiny"}, {"op": "copy"},
 ]
 
 
@@ -320,9 +355,9 @@ def machine_shard(args, stats):
         def nac(self, method, key):
             self._do({"op": "nac", "method": method, "key": key})
 
-        @rule(key=keys_)
-        def masses(self, key):
-            self._do({"op": "masses", "key": key})
+        @rule(key=keys_, how=st.sampled_from(["random", "random", "tiny", "one"]))
+        def masses(self, key, how):
+            self._do({"op": "masses", "key": key, "how": how})
 
         @rule()
         def copy_(self):
